@@ -134,8 +134,8 @@ func (t tree) describe() string {
 type ssImage struct {
 	label  string
 	files  tree
-	states []StateModel  // acceptable recovered (term, vote)
-	snaps  []*SnapModel  // acceptable "most recent snapshot" (nil entry = none)
+	states []StateModel // acceptable recovered (term, vote)
+	snaps  []*SnapModel // acceptable "most recent snapshot" (nil entry = none)
 	inside bool
 }
 
@@ -143,7 +143,7 @@ type ssImage struct {
 type nullFSM struct{ restored []byte }
 
 func (f *nullFSM) Apply(*raft.Operation) interface{} { return nil }
-func (f *nullFSM) Snapshot(io.Writer) error           { return nil }
+func (f *nullFSM) Snapshot(io.Writer) error          { return nil }
 func (f *nullFSM) Restore(r io.Reader) error {
 	b, err := io.ReadAll(r)
 	f.restored = b
